@@ -409,5 +409,6 @@ static void fixed(void) {
 
 int main(int argc, char** argv) {
   probes_init();
+  pe_prop = "C04";
   return vh_run(argc, argv, "seq", fixed, case_random);
 }
